@@ -147,14 +147,14 @@ func (v *Vocab) render(a Act) (string, string) {
 		if a.Pw != "" && a.Pw != "none" {
 			q += " IDENTIFIED BY '" + a.Pw + "'"
 		}
-		return "root", q
+		return admin, q
 	case "CreateRole":
-		return "root", "CREATE ROLE " + v.acct(a.A)
+		return admin, "CREATE ROLE " + v.acct(a.A)
 	case "DropAcct":
 		if v.isRole[a.A] {
-			return "root", "DROP ROLE " + v.acct(a.A)
+			return admin, "DROP ROLE " + v.acct(a.A)
 		}
-		return "root", "DROP USER " + v.acct(a.A)
+		return admin, "DROP USER " + v.acct(a.A)
 	case "GrantPriv", "RevokePriv":
 		var ps []string
 		wgo := false
@@ -170,21 +170,21 @@ func (v *Vocab) render(a Act) (string, string) {
 			if wgo {
 				q += " WITH GRANT OPTION"
 			}
-			return "root", q
+			return admin, q
 		}
-		return "root", fmt.Sprintf("REVOKE %s ON %s FROM %s", strings.Join(ps, ", "), obj(a.Db, a.Tbl), v.acct(a.A))
+		return admin, fmt.Sprintf("REVOKE %s ON %s FROM %s", strings.Join(ps, ", "), obj(a.Db, a.Tbl), v.acct(a.A))
 	case "GrantRole":
 		q := fmt.Sprintf("GRANT %s TO %s", v.acct(a.R), v.acct(a.A))
 		if a.Adm {
 			q += " WITH ADMIN OPTION"
 		}
-		return "root", q
+		return admin, q
 	case "RevokeRole":
-		return "root", fmt.Sprintf("REVOKE %s FROM %s", v.acct(a.R), v.acct(a.A))
+		return admin, fmt.Sprintf("REVOKE %s FROM %s", v.acct(a.R), v.acct(a.A))
 	case "SetRole":
 		return a.A, "SET ROLE " + strings.ToUpper(a.M)
 	case "SetDefaultRole":
-		return "root", fmt.Sprintf("SET DEFAULT ROLE %s TO %s", strings.ToUpper(a.M), v.acct(a.A))
+		return admin, fmt.Sprintf("SET DEFAULT ROLE %s TO %s", strings.ToUpper(a.M), v.acct(a.A))
 	}
 	return "", ""
 }
@@ -209,7 +209,7 @@ type World struct {
 
 func newWorld(v *Vocab) *World {
 	w := &World{V: v, F: NewFix(v.Dbs, v.Tbls)}
-	w.F.Must("root", "CREATE USER '"+bystander+"'@'localhost'")
+	w.F.Must(admin, "CREATE USER '"+bystander+"'@'localhost'")
 	return w
 }
 
@@ -247,7 +247,7 @@ func (w *World) apply(a Act) (string, string) {
 // Reload persists the privilege database and loads it into a fresh engine (same databases, tables
 // freshly created, a root account to administer it).
 func (f *Fix) Reload() (*Fix, error) {
-	ctx := sql.NewContext(context.Background(), sql.WithSession(f.Session("root")))
+	ctx := sql.NewContext(context.Background(), sql.WithSession(f.Session(admin)))
 	ed := f.MySQLDb.Editor()
 	err := f.MySQLDb.Persist(ctx, ed)
 	ed.Close()
@@ -256,7 +256,7 @@ func (f *Fix) Reload() (*Fix, error) {
 	}
 	data := append([]byte(nil), f.Pers.data...)
 	nf := NewFix(f.Dbs, f.Tbls)
-	nctx := sql.NewContext(context.Background(), sql.WithSession(nf.Session("root")))
+	nctx := sql.NewContext(context.Background(), sql.WithSession(nf.Session(admin)))
 	if err := nf.MySQLDb.LoadData(nctx, data); err != nil {
 		return nil, fmt.Errorf("load: %w", err)
 	}
@@ -267,18 +267,18 @@ func (f *Fix) Reload() (*Fix, error) {
 func (w *World) materialise(pre St) {
 	for _, a := range pre.Accts {
 		if w.V.isRole[a.A] {
-			w.F.Must("root", "CREATE ROLE "+w.V.acct(a.A))
+			w.F.Must(admin, "CREATE ROLE "+w.V.acct(a.A))
 		} else {
 			q := "CREATE USER " + w.V.acct(a.A)
 			if a.Pw != "" && a.Pw != "none" {
 				q += " IDENTIFIED BY '" + a.Pw + "'"
 			}
-			w.F.Must("root", q)
+			w.F.Must(admin, q)
 		}
 	}
 	for _, a := range pre.Accts {
 		for _, g := range a.G {
-			w.F.Must("root", fmt.Sprintf("GRANT %s ON %s TO %s", g.P, obj(g.Db, g.Tbl), w.V.acct(a.A)))
+			w.F.Must(admin, fmt.Sprintf("GRANT %s ON %s TO %s", g.P, obj(g.Db, g.Tbl), w.V.acct(a.A)))
 		}
 	}
 	for _, e := range pre.Edges {
@@ -286,7 +286,7 @@ func (w *World) materialise(pre St) {
 		if e.Adm {
 			q += " WITH ADMIN OPTION"
 		}
-		w.F.Must("root", q)
+		w.F.Must(admin, q)
 	}
 	for u, m := range pre.Active {
 		if m == "none" {
@@ -310,7 +310,7 @@ func (w *World) project() *St {
 		return user + "@" + host
 	}
 	rd.VisitUsers(func(u *mysql_db.User) {
-		if u.Host == "localhost" && (u.User == "root" || u.User == bystander) {
+		if u.Host == "localhost" && (u.User == admin || u.User == bystander || u.User == "root") {
 			return
 		}
 		a := AcctSt{A: name(u.User, u.Host), Locked: u.Locked, G: []Atom{}}
@@ -359,8 +359,8 @@ func (w *World) project() *St {
 // showGrants: SHOW GRANTS FOR every account of the model that exists.
 func (w *World) showGrants() []GrantsOf {
 	out := []GrantsOf{}
-	for _, a := range append(append([]string{}, w.V.Users...), w.V.Roles...) {
-		r := w.F.Exec("root", "SHOW GRANTS FOR "+w.V.acct(a))
+	for _, a := range append(append([]string{"root"}, w.V.Users...), w.V.Roles...) {
+		r := w.F.Exec(admin, "SHOW GRANTS FOR "+w.V.acct(a))
 		if r.Kind != "rows" {
 			continue // the account does not exist
 		}
@@ -428,7 +428,7 @@ func (w *World) matrix(classes map[string]bool) []Row {
 					w.F.resetTable(p.db, p.tbl)
 				}
 				if p.undo != "" {
-					w.F.Must("root", p.undo)
+					w.F.Must(admin, p.undo)
 				}
 			case "denied":
 				row.Out = "deny"
@@ -444,14 +444,14 @@ func (w *World) matrix(classes map[string]bool) []Row {
 				}
 				// a refused statement changed something: recorded (unch=false); restore for the rest
 				for _, d := range w.V.Dbs {
-					w.F.Exec("root", "DROP TABLE IF EXISTS "+d+"."+newTable)
+					w.F.Exec(admin, "DROP TABLE IF EXISTS "+d+"."+newTable)
 					for _, t := range w.V.Tbls {
 						w.F.resetTable(d, t)
 					}
 				}
-				w.F.Exec("root", "DROP USER IF EXISTS '"+probeUser+"'@'localhost'")
+				w.F.Exec(admin, "DROP USER IF EXISTS '"+probeUser+"'@'localhost'")
 				if p.undo != "" {
-					w.F.Exec("root", p.undo)
+					w.F.Exec(admin, p.undo)
 				}
 				base = w.F.Fingerprint()
 			}
